@@ -90,6 +90,11 @@ def gen_design(r, cfg):
                             kind == "prim" and t["decl"] == "none"), "conns": []}
                 if r.random() < 0.3:
                     inst["params"][r.choice(["INIT", "WIDTH", "MODE"])] = r.choice(["16'hEC80", "4", '"fast"'])
+                if kind == "mod" and t["params"] and r.random() < 0.5:
+                    # override a parameter the module declares in its header - with another value, or with the very
+                    # value the header gives as default (redundant in Verilog, but it is what the source says)
+                    for k_, v_ in t["params"].items():
+                        inst["params"][k_] = v_ if r.random() < 0.5 else r.choice(["8'h0F", "3", "5", '"str"', '"x"'])
                 if r.random() < 0.2:
                     for k_ in r.sample(["keep", "loc", "dont_touch"], r.choice([1, 1, 2, 3])):
                         inst["attrs"][k_] = r.choice([None, '"X1Y2"', "1"])
